@@ -162,8 +162,9 @@ impl Server for LocalServer {
     }
 
     async fn add_snapshot(&mut self, _version_id: VersionId, _snapshot: Snapshot) -> Result<()> {
-        // the local server never requests a snapshot, so it should never get one
-        unreachable!()
+        // the local server never requests a snapshot and keeps every version, so a snapshot
+        // sent anyway is simply discarded, as the protocol allows
+        Ok(())
     }
 
     async fn get_snapshot(&mut self) -> Result<Option<(VersionId, Snapshot)>> {
